@@ -15,6 +15,15 @@ def _table(chk):
     return chk.path("table.ndjson")
 
 
+def _send(st):
+    """Send(sendSensitive/omemo/later) | SendPlain(send) | Split | Recover"""
+    if st["a"] == "Send":
+        return "Send(%s/%s/%s)" % (st["api"], st["style"], st["how"])
+    if st["a"] == "SendPlain":
+        return "SendPlain(%s)" % st["api"]
+    return st["a"]
+
+
 def run(chk, replay=None):
     quick = chk.tier == "quick"
     # 1. design level: the table + mode predicate satisfy the three clauses for every consistent set of <= MaxSet kinds
@@ -29,25 +38,30 @@ def run(chk, replay=None):
         vf.tlc_gen("SceGen.tla", "SceGen2.cfg", env={"QXV_TABLE": tpath}, tag="SceTable")
     else:
         focus_cfg = "SceGenEme1.cfg" if quick else "SceGenEme2.cfg"
-        (ex, st1), (foc, st3), (sim, st2) = tracepar.par([
+        send_cfg = "SceGenSend1.cfg" if quick else "SceGenSend2.cfg"
+        (ex, st1), (foc, st3), (snd, st4), (sim, st2) = tracepar.par([
             lambda: vf.tlc_gen("SceGen.tla", "SceGen2.cfg" if quick else "SceGen3.cfg", env={"QXV_TABLE": tpath}),
             # value focus: every encryption-method value x {fallback body, real body, both} x every further kind
             # (thorough: every further pair); the configuration carries the invariants, so it is model-checked too
             lambda: vf.tlc_gen("SceGen.tla", focus_cfg, env={"QXV_TABLE": ""}, timeout=2400),
+            # client path: {}, {body}, {body, fallback body} + every further kind (thorough: pair), each sent through
+            # sendSensitive / reply x stub style plain / omemo x task ready / later, and through send / sendPacket (control)
+            lambda: vf.tlc_gen("SceGen.tla", send_cfg, env={"QXV_TABLE": ""}, timeout=2400),
             lambda: vf.tlc_simulate("SceGen.tla", "SceGenSim.cfg", num=40 if quick else 4000, depth=70, seed=chk.seed,
                                     workers=1, env={"QXV_TABLE": ""})])
         chk.mc({"ok": True, "distinct": st3["distinct"], "states": st3["states"], "depth": 0, "wall_s": st3["wall_s"]}, focus_cfg)
+        chk.mc({"ok": True, "distinct": st4["distinct"], "states": st4["states"], "depth": 0, "wall_s": st4["wall_s"]}, send_cfg)
         # only complete behaviours (ending in Recover) are of interest; prefixes are covered by them
         seen = set()
         behs = []
-        for b in ex + foc + sim:
-            if not (b["steps"] and b["steps"][-1]["a"] == "Recover"):
+        for b in ex + foc + snd + sim:
+            if not (b["steps"] and b["steps"][-1]["a"] in ("Recover", "Send", "SendPlain")):
                 continue
-            key = tuple(st.get("k", st["a"]) for st in b["steps"])
+            key = tuple(st.get("k", _send(st)) for st in b["steps"])
             if key not in seen:
                 seen.add(key)
                 behs.append(b)
-        chk.cov["generation"] = {"exhaustive_sets": st1, "value_focus": st3, "simulate": st2}
+        chk.cov["generation"] = {"exhaustive_sets": st1, "value_focus": st3, "client_path": st4, "simulate": st2}
     table = vf._decode_gen(tpath)
     if not table:
         raise vf.MachineryError("SceGen did not export the kind table")
@@ -90,6 +104,29 @@ def run(chk, replay=None):
                 emitted |= set(o["o"]["pub"]) | set(o["o"]["sens"])
             elif o["e"] == "Recover":
                 recovered |= set(o["o"]["rec"])
+    # client path (measured): encrypted sends that reached the wire through the stub extension, and the control --
+    # plain sends of a message with sensitive kinds must show them in the clear, else the harness would be blind
+    sens_kinds = {k for k, p_ in part.items() if p_ == "Sensitive"}
+    n_enc = n_enc_ok = n_plain = n_plain_sens = n_plain_seen = 0
+    on_wire = set()
+    for lines in cases.values():
+        S = {o["k"] for o in lines if o["e"] == "Set"}
+        for o in lines:
+            if o["e"] == "Send":
+                n_enc += 1
+                n_enc_ok += o["o"]["sent"] == 1 and o["o"]["encryptCalls"] == 1 and "e2eePayload" in o["o"]["wire"]
+                on_wire |= set(o["o"]["wire"])
+            elif o["e"] == "SendPlain":
+                n_plain += 1
+                if S & sens_kinds:
+                    n_plain_sens += 1
+                    n_plain_seen += bool(set(o["o"]["wire"]) & sens_kinds)
+    chk.cov["client_path"] = {"encrypted_sends": n_enc, "of_which_one_stanza_with_payload_on_the_wire": n_enc_ok,
+                              "public_kinds_seen_on_the_wire": len(on_wire & set(part)),
+                              "control_plain_sends": n_plain, "control_with_sensitive_kinds": n_plain_sens,
+                              "control_where_they_were_seen_in_the_clear": n_plain_seen}
+    if not replay and (n_enc == 0 or n_enc_ok < n_enc or n_plain_sens == 0 or n_plain_seen < n_plain_sens):
+        raise vf.MachineryError(f"client path is not observed as intended: {chk.cov['client_path']}")
     chk.cov["kinds_seen_emitted"] = len(emitted & set(part))
     chk.cov["kinds_seen_recovered"] = len(recovered & set(part))
     if not replay and emitted & set(part) != set(part):
@@ -98,18 +135,25 @@ def run(chk, replay=None):
     chk.cov["rule"] = ("every consistent set of at most %d of the %d element kinds of spec/Sce.tla (one behaviour each: "
                        "Set.., Split, Recover; a kind = an element in one value class, e.g. one per QXmpp::EncryptionMethod) + the "
                        "value focus (every encryption method x fallback body / body / both x every further kind, thorough: pair) "
+                       "+ the client path ({}, {body}, {body, fallback body} + every further kind, thorough: pair; sent through a real "
+                       "QXmppClient with a succeeding stub QXmppE2eeExtension by sendSensitive / reply x stub style x ready / later "
+                       "task, judged WireNoLeak / WirePublic on the stanza logged as sent; send / sendPacket as control) "
                        "+ seeded random larger sets (TLC -simulate); each replayed on the real "
                        "QXmppMessage (setters with distinctive values; toXml(ScePublic), serializeExtensions(SceSensitive) in an "
                        "SCE <content/>, toXml(SceAll); parse public then sensitive into a fresh message) and validated by "
                        "SceTrace.tla, which evaluates NoLeak / Partition / Recover on the logged element kinds and raw-substring "
                        "hits") % (2 if quick else 3, len(spec_kinds))
     for b in behs[:2] + behs[len(behs) // 2:len(behs) // 2 + 1] + behs[-2:]:
-        chk.sample([st.get("k", st["a"]) for st in b["steps"]])
+        chk.sample([st.get("k", _send(st)) for st in b["steps"]])
+    for b in [b for b in behs if b["steps"][-1]["a"] == "Send"][:2]:
+        chk.sample([st.get("k", _send(st)) for st in b["steps"]], cap=8)
     # violations: one per (clause, offending kind), reported on the smallest set that shows it
     best = {}
     for v in s["viol"]:
         idx = int(v["case"][1:]) - 1
         S = [st["k"] for st in behs[idx]["steps"] if st["a"] == "Set"]
+        if v["e"] == "Send":
+            S = S + [_send(behs[idx]["steps"][-1])]
         for kind in v["kinds"]:
             key = (v["prop"], kind)
             if key not in best or (len(S), S) < (len(best[key][1]), best[key][1]):
@@ -119,7 +163,11 @@ def run(chk, replay=None):
         v, S, idx = best[key]
         what = {"NoLeak": "the public part (toXml(ScePublic)) contains sensitive or unknown content: %s",
                 "Partition": "public + sensitive part do not contain exactly the elements of the unsplit message, each once: %s",
-                "Recover": "parse(public, ScePublic) + parseExtensions(sensitive, SceSensitive) does not give back the field value of: %s"
+                "Recover": "parse(public, ScePublic) + parseExtensions(sensitive, SceSensitive) does not give back the field value of: %s",
+                "WireNoLeak": "the stanza QXmppClient put on the wire on the ENCRYPTED send path contains sensitive or unknown content "
+                              "next to the encrypted payload: %s",
+                "WirePublic": "the stanza QXmppClient put on the wire on the encrypted send path lacks (or repeats) a public element of "
+                              "the message the encryption extension returned: %s",
                 }[v["prop"]] % key[1]
         chk.violation("C17:%s:%s:S=%s" % (key[0], key[1], ",".join(S)), what + " (message with " + ", ".join(S) + " set)",
                       [behs[idx]] + cases.get(v["case"], []))
@@ -133,5 +181,6 @@ def run(chk, replay=None):
         "elements the class does not know (QXmppStanza::extensions()) are outside the property's quantifier: they are written "
         "by toXml in every mode, i.e. always into the public part",
         "recovery is demanded relative to what the unsplit (SceAll) round trip recovers",
-        "OMEMO element (BUILD_OMEMO) not built",
+        "OMEMO element (BUILD_OMEMO) not built: on the client path the encryption extension is a stub that succeeds and, like "
+        "QXmppOmemoManager, returns the message with its sensitive fields still set; its payload travels as a QXmppElement",
     ]
